@@ -1,14 +1,20 @@
 #!/bin/sh
 # tools/try_seeded.sh <PROPERTY> <patch.diff> [quick|thorough] [--only ...]
-# Applies a seeded change to /repo, runs the property's check, and reverts /repo straight afterwards.
+# Runs the property's check against a scratch worktree of /repo with a seeded change applied (PV_REPO points the harness
+# crates at the worktree; /repo itself is not touched). Worktree and its build output are removed afterwards.
 set -u
 P=$1; PATCH=$2; TIER=${3:-quick}; shift 3 2>/dev/null || shift $#
+TAG=$(echo "$P-$PATCH" | md5sum | cut -c1-8)
+WT=/tmp/seed_$TAG
 cd /verif
-git -C /repo diff --quiet || { echo "/repo working tree is not clean"; exit 3; }
-git -C /repo apply "$PATCH" || { echo "patch does not apply"; exit 3; }
-PV_MAX_REPLAYS=2 timeout 3000 ./check "$P" --tier "$TIER" --no-evidence "$@" > ".build/seeded_$P.txt" 2>&1
+git -C /repo worktree remove --force $WT 2>/dev/null; rm -rf $WT
+git -C /repo worktree add --detach $WT HEAD >/dev/null 2>&1 || exit 3
+git -C $WT apply "$PATCH" || { echo "patch does not apply"; git -C /repo worktree remove --force $WT; exit 3; }
+OUT=.build/seeded_${P}_$TAG.txt
+PV_REPO=$WT PV_MAX_REPLAYS=2 timeout 3000 ./check "$P" --tier "$TIER" --no-evidence "$@" > "$OUT" 2>&1
 RC=$?
-git -C /repo checkout -- .
-git -C /repo status --short | grep -v '^??' | head -3
-grep -E "^(VIOLATION|INCONCLUSIVE|KNOWN|C[0-9][0-9] \[)" ".build/seeded_$P.txt" | cut -c1-220 | head -8
+git -C /repo worktree remove --force $WT
+
+H=$(python3 -c "import hashlib;print(hashlib.sha1('$WT'.encode()).hexdigest()[:8])"); rm -rf /verif/.build/alt_$H
+grep -E "^(VIOLATION|INCONCLUSIVE|KNOWN|C[0-9][0-9] \[)" "$OUT" | cut -c1-220 | head -6
 echo "exit=$RC"
